@@ -505,7 +505,12 @@ def _run_mkdev(drv: Driver, case: dict, res: Result):
     p = case["params"]
     chans = [make_channel(k) for k in p["channels"]]
     dmms = [make_dmm(k) for k in p["dmms"]]
-    layouts = [RegisterLayout(t) for t in p.get("layouts", [])]
+    layouts = []
+    for t in p.get("layouts", []):
+        try:
+            layouts.append(RegisterLayout(t))
+        except ValueError:
+            pass      # degenerate generated layout (traps coinciding after rounding): not part of the case
     kw = dict(name="gen", dimensions=p["dimensions"], rydberg_level=p["rydberg_level"],
               min_atom_distance=p["min_atom_distance"], max_atom_num=p["max_atom_num"],
               max_radial_distance=p["max_radial_distance"], max_sequence_duration=p["max_sequence_duration"],
